@@ -165,6 +165,22 @@ Proof.
 Qed.
 Print Assumptions independent_active_rule.
 
+(** On coherent states (a moving point mass induces a velocity of its composite object: the
+    assumption stated in the docstring of [yield_independent_lifted_identifiers], kept by the
+    event handlers, C12) the rule needs no reference to the root's own velocity: a composite
+    object is extracted iff all its point masses move, a point mass iff it moves and some
+    sibling does not.  (A lifted leaf under a root WITHOUT velocity is not extracted by the code:
+    it iterates over the lifted roots only.) *)
+Theorem independent_active_rule_coherent : forall g,
+  ginv g -> g_levels g <> 1 -> coherent g -> 0 < g_npr g ->
+  forall id, In id (active_ids g) <->
+  match id with
+  | Root i => i < length (g_phys g) /\ forall j, j < g_npr g -> lifted g (Leaf i j)
+  | Leaf i j => j < g_npr g /\ lifted g (Leaf i j) /\ exists j', j' < g_npr g /\ ~ lifted g (Leaf i j')
+  end.
+Proof. exact active_ids_rule2_coherent. Qed.
+Print Assumptions independent_active_rule_coherent.
+
 (* ======================================================================================== *)
 (** Non-vacuity: concrete, non-trivial instances of the hypotheses. *)
 
@@ -222,6 +238,13 @@ Example ex_active : active_ids (c_g (run ex_c0 (firstn 6 ex_ops))) = [Leaf 0 1]
                     /\ active_ids (c_g (run ex_c0 ex_ops)) = [Leaf 0 0]
                     /\ g_levels (c_g ex_c0) <> 1.
 Proof. vm_compute. repeat split; discriminate. Qed.
+
+(** a coherent state with an active point mass: root 0 and leaf (0,0) lifted *)
+Example ex_coherent : coherent (c_g (run ex_c0 ex_ops)) /\ 0 < g_npr (c_g (run ex_c0 ex_ops)).
+Proof.
+  split; [|vm_compute; repeat constructor]. intros i j. unfold lifted. vm_compute.
+  destruct i as [|[|i]]; destruct j as [|[|j]]; simpl; congruence.
+Qed.
 
 Example ex_global_aliases : length (extract_global (c_g (run ex_c0 ex_ops))) = 2.
 Proof. reflexivity. Qed.
